@@ -166,6 +166,15 @@ def mk_Nasa(ctx):
     return _nasa(ctx)
 
 
+def mk_Nasa_misc_after_adj(ctx):
+    """a gas species (pressure adjustment attached automatically) that later receives another attached model"""
+    from pmutt.mixture.cov import PiecewiseCovEffect
+    sp = _nasa(ctx)
+    sp.misc_models.append(PiecewiseCovEffect(name_i='H2O', name_j='H2O', intervals=[0., _num(ctx, 'b1', 0.1, 0.9)],
+                                             slopes=[_num(ctx, 's0', -10, 10), _num(ctx, 's1', -10, 10)]))
+    return sp
+
+
 def mk_Nasa_surface(ctx):
     from pmutt.chemkin import CatSite
     site = CatSite(name='PT(S)', site_density=_num(ctx, 'sden', 1e-11, 1e-8), density=_num(ctx, 'dens', 1, 30), bulk_specie='PT(B)')
@@ -209,6 +218,20 @@ def mk_CatSite(ctx):
 def mk_BEP(ctx):
     from pmutt.reaction.bep import BEP
     return BEP(slope=_num(ctx, 'slope', 0, 1), intercept=_num(ctx, 'icpt', 0, 60), name='BEP1', descriptor='rev_delta_H', notes='b', elements={'H': 2})
+
+
+def mk_omkmBEP(ctx):
+    from pmutt.omkm.reaction import BEP
+    return BEP(slope=_num(ctx, 'slope', 0, 1), intercept=_num(ctx, 'icpt', 0, 60), name='b_0001', descriptor='delta_H', notes='b', direction='cleavage')
+
+
+def mk_SurfaceReaction_BEP(ctx):
+    """a surface reaction whose transition state is an OpenMKM BEP relationship"""
+    from pmutt.omkm.reaction import SurfaceReaction, BEP
+    a, b, c_, t = _species3(ctx)
+    bep = BEP(slope=_num(ctx, 'slope', 0, 1), intercept=_num(ctx, 'icpt', 0, 60), name='b_0001', descriptor='delta_H', direction='cleavage')
+    return SurfaceReaction(reactants=[a, b], reactants_stoich=[1., 1.], products=[c_], products_stoich=[1.], transition_state=[bep],
+                           transition_state_stoich=[1.], id='r_0003', direction='cleavage', beta=_num(ctx, 'beta', 0, 2))
 
 
 def _refs(ctx):
@@ -317,6 +340,7 @@ CASES = {
     'StatMech+misc_models': (mk_StatMech_misc, [('get_HoRT', dict(x=0.4)), ('get_GoRT', dict(x=0.95)), 'get_SoR'], ['name', 'elements']),
     'StatMech+references': (mk_StatMech_refs, ['get_HoRT', 'get_GoRT', ('get_HoRT', dict(use_references=False))], ['name', 'elements']),
     'Nasa': (mk_Nasa, EMP_G, ['name', 'elements', 'phase', 'notes', 'T_low', 'T_mid', 'T_high']),
+    'Nasa+model-attached-after-the-pressure-adjustment': (mk_Nasa_misc_after_adj, EMP_G + [('get_HoRT', dict(x=0.95))], ['name', 'phase']),
     'Nasa+cat_site': (mk_Nasa_surface, EMP_G, ['name', 'phase', 'n_sites']),
     'Nasa9': (mk_Nasa9, EMP_G, ['name', 'elements', 'phase', 'notes', 'n_sites']),
     'SingleNasa9': (mk_SingleNasa9, ['get_CpoR', 'get_HoRT', 'get_SoR'], ['T_low', 'T_high']),
@@ -325,6 +349,9 @@ CASES = {
     'PiecewiseCovEffect': (mk_PiecewiseCovEffect, [('get_HoRT', dict(x=0.55)), ('get_GoRT', dict(x=0.95)), ('get_UoRT', dict(x=0.05))], ['name_i', 'name_j', 'name']),
     'CatSite': (mk_CatSite, [], ['name', 'site_density', 'density', 'bulk_specie']),
     'BEP': (mk_BEP, [], ['name', 'slope', 'intercept', 'descriptor', 'notes', 'elements']),
+    'omkm.BEP': (mk_omkmBEP, [], ['name', 'slope', 'intercept', 'descriptor', 'notes', 'direction']),
+    'SurfaceReaction+BEP': (mk_SurfaceReaction_BEP, ['get_delta_HoRT', ('get_delta_HoRT', dict(act=True)), ('get_delta_GoRT', dict(act=True)),
+                                                    ('get_GoRT_act', dict(rev=True))], ['id', 'direction', 'beta']),
     'Reference': (mk_Reference, [], ['name', 'elements', 'T_ref', 'HoRT_ref']),
     'References': (mk_References, [('get_HoRT', dict(descriptors={'H': 2, 'O': 1})), ('get_GoRT', dict(descriptors={'H': 4}))], ['descriptor', 'T_ref']),
     'LSR': (mk_LSR, ['get_UoRT', 'get_HoRT', 'get_FoRT', 'get_GoRT', 'get_q', 'get_SoR'], ['notes']),
@@ -402,6 +429,13 @@ def h_case(ctx, case, times):
         return
     for a in attrs:
         ctx.true('attribute %s preserved' % a, hasattr(copy, a) and _attr_same(getattr(obj, a), getattr(copy, a)))
+    if getattr(obj, 'misc_models', None) is not None:
+        ctx.true('same attached models, each once', [type(m) for m in obj.misc_models] == [type(m) for m in (copy.misc_models or [])])
+    if getattr(obj, 'transition_state', None):
+        ctx.true('transition-state members decode to their own classes',
+                 [type(x) for x in obj.transition_state] == [type(x) for x in (copy.transition_state or [])])
+    if getattr(obj, 'bep', None) is not None:
+        ctx.true('the reaction is still tied to its BEP relationship', getattr(copy, 'bep', None) is not None and type(copy.bep) is type(obj.bep))
     for gt in getters:
         name, kw = (gt, {}) if isinstance(gt, str) else gt
         try:
